@@ -652,3 +652,26 @@ func SamePath(a, b ssa.Value) bool {
 	}
 	return false
 }
+
+// RPO returns the blocks of fn in reverse post-order (a topological order when back edges are ignored).
+func RPO(fn *ssa.Function) []*ssa.BasicBlock {
+	seen := map[*ssa.BasicBlock]bool{}
+	var post []*ssa.BasicBlock
+	var dfs func(b *ssa.BasicBlock)
+	dfs = func(b *ssa.BasicBlock) {
+		seen[b] = true
+		for _, s := range b.Succs {
+			if !seen[s] {
+				dfs(s)
+			}
+		}
+		post = append(post, b)
+	}
+	if len(fn.Blocks) > 0 {
+		dfs(fn.Blocks[0])
+	}
+	for i, j := 0, len(post)-1; i < j; i, j = i+1, j-1 {
+		post[i], post[j] = post[j], post[i]
+	}
+	return post
+}
